@@ -22,7 +22,7 @@ from .common import ROOT, cbool, clist, copt
 
 PROP = "C17"
 F4 = "F4_len_cache_remove_then_add"
-F13 = "F13_builtin_registered_after_import_runs_both"
+G1 = "C17G1_builtin_registered_after_import_runs_both"
 KINDS = {"main": dict(imports="From SS Require Import Base M_Glue.", type="glue_case",
                       mismatch="mismatches", nontrivial="count_nontrivial")}
 SHARD = 400
@@ -60,7 +60,7 @@ CONFIG = dict(
     NOTES=("Deviation from DESIGN: the two pops of one loop iteration are ONE model step (no checkpoint separates them, so "
            "no schedule between them can be realised against the code); never_both needs the hypothesis that built-in glue "
            "is registered before the module is first imported -- a registration for an already imported module runs the "
-           "built-in at once although the module's own glue also runs later (candidate finding F13, witness "
+           "built-in at once although the module's own glue also runs later (candidate finding C17-G1, witness "
            "C17_never_both_refuted)."),
     timeout={"quick": 900, "thorough": 5400},
 )
@@ -132,7 +132,7 @@ def f4_pattern(desc) -> bool:
     return False
 
 
-def f13_pattern(desc) -> bool:
+def g1_pattern(desc) -> bool:
     """a builtin_glue registration names a module that has been inserted before"""
     ever = set(e[1] for e in _effects(desc) if e[0] == "I")
     for op in _all_ops(desc):
@@ -599,7 +599,9 @@ def _oracle(desc, obs):
     for i, e in enumerate(log):
         if e[0] == "B":
             cur = obs["bcur"].get(str(i))
-            if cur is not None:
+            # the object is read at call time; under a concurrent removal/replacement between the visit
+            # and the call (possible at the glue:call checkpoint) it is not the object the routine looked at
+            if cur is not None and not (desc["mode"] == "conc" and f4_pattern(desc)):
                 if any(x[0] == "M" and x[1] == cur and x[2] == e[2] for x in log):
                     out.setdefault("both", "module object %d (name %d) got its own glue AND built-in glue %d" % (cur, e[2], e[1]))
                 if objs[cur][0] == "mod" and objs[cur][1] is not None and not any(x[0] == "M" and x[1] == cur for x in log[:i]):
@@ -644,7 +646,7 @@ def direct_oracle(desc, obs):
         return msg
     if f4_pattern(desc):
         res.pop("timely", None)
-    if f13_pattern(desc):
+    if g1_pattern(desc):
         res.pop("both", None)
     for k in ("once", "both", "prefers", "warn", "timely"):
         if k in res:
@@ -782,8 +784,8 @@ def with_twins(d, stride_state=[0]):
         stride_state[0] += 1
         if d.get("gen") != "exh" or stride_state[0] % 7 == 0:
             yield dict(d, _sig=F4, only="timely")
-    if f13_pattern(d):
-        yield dict(d, _sig=F13, only="both")
+    if g1_pattern(d):
+        yield dict(d, _sig=G1, only="both")
 
 
 def rand_fn(rng, nn, no, p_eff=0.2):
@@ -894,7 +896,7 @@ def specials():
     # replacement of a module object under the same name
     out.append({"mode": "seq", "via": "direct", "scanned": True, "objs": [M, M], "bfns": [], "gen": "special",
                 "ops": [["I", 0, 0], ["X"], ["I", 0, 1], ["X"]]})
-    # F13: registration after import
+    # C17-G1: registration after import
     out.append({"mode": "seq", "via": "direct", "scanned": True, "objs": [M], "bfns": [["ok", []]], "gen": "special",
                 "ops": [["I", 0, 0], ["G", 0], ["X"]]})
     # the repo's own tests: module beats built-in; None module with raising built-in
@@ -956,15 +958,15 @@ def make_inputs(tier, seed):
 
 def extra_legs(tier, seed):
     """nothing beyond bookkeeping: which recorded findings were reproduced by the oracle-only twins
-    is decided by the driver from their `_sig`; here we only report the candidate finding F13."""
+    is decided by the driver from their `_sig`; here we only report the candidate finding C17-G1."""
     env = _env()
     d = {"mode": "seq", "via": "direct", "scanned": True, "objs": [["mod", ["ok", []]]], "bfns": [["ok", []]],
          "ops": [["I", 0, 0], ["G", 0], ["X"]], "gen": "special"}
     obs = run_case(d)
     both = _oracle(d, obs).get("both")
     return {"evaluations": 1, "violations": [],
-            "info": {"candidate_finding_F13": {"signature": F13, "reproduced": bool(both), "input": d, "log": obs["log"],
+            "info": {"candidate_finding_G1": {"signature": G1, "reproduced": bool(both), "input": d, "log": obs["log"],
                                                "text": "builtin_glue() for an already imported module runs the built-in glue at "
                                                        "once; the module's own _stackscope_install_glue_ runs at the next "
                                                        "extraction as well (both kinds for one module, built-in not beaten)",
-                                               "recorded_in_known_findings": F13 in _known_sigs()}}}
+                                               "recorded_in_known_findings": G1 in _known_sigs()}}}
